@@ -1053,9 +1053,9 @@ func c19Goroutines(c *Ctx) {
 					kind = "go"
 					spawned = ix.resolveFnValue(x.Call.Value)
 				case *ssa.Call:
-					if cal := calleeOf(&x.Call); cal != nil && qualName(cal) == "time.AfterFunc" {
+					if cb := c.P.afterFuncArg(&x.Call); cb != nil {
 						kind = "AfterFunc"
-						spawned = ix.resolveFnValue(x.Call.Args[1])
+						spawned = ix.resolveFnValue(cb)
 					}
 				}
 				if kind == "" {
